@@ -5,4 +5,6 @@ HOOK_COMMITS = [
     "bd6a6e1",  # verif hook H3: re-export search utils behind cfg(reinterpretcat_vrp_verif)
     "8501982",  # verif hook H5: expose gsom contraction helpers behind cfg(reinterpretcat_vrp_verif)
     "e9bcde5",  # verif hook H4: expose dynamic selective reward arithmetic behind cfg(reinterpretcat_vrp_verif)
+    "6f4543a",  # verif hook H3: re-export search utils from inside the utils module (previous glob stayed crate-private)
+    "90b95df",  # verif hook H1: route/solution state digest behind cfg(reinterpretcat_vrp_verif)
 ]
